@@ -446,6 +446,40 @@ theorem C09_lzma_reader_source_failure_inside_stream_never_clean (cfgCap : Nat) 
   rw [hseq] at this
   exact this he
 
+open Lzma LazyDec in
+/-- the same for a classic stream with a size in its header (with or without end marker) -/
+theorem C09_lzma_reader_source_failure_inside_sized_stream_never_clean (cfgCap : Nat) (hdr : Lzma1.Header) (ops : List RawOp)
+    (marker : Bool)
+    (hlc : hdr.props.lc ≤ 8) (hlp : hdr.props.lp ≤ 4) (hpb : hdr.props.pb ≤ 4) (hdc : hdr.dictCap < 2 ^ 32)
+    (hcfg : effCap cfgCap ≤ max hdr.dictCap 4096)
+    (hops : OpsOk {} { out := .empty, dictStart := 0, cap := max (effCap cfgCap) (max hdr.dictCap 4096) } ops)
+    (hsize : hdr.size = some
+      (finalH {} { out := .empty, dictStart := 0, cap := max (effCap cfgCap) (max hdr.dictCap 4096) } ops).out.size)
+    (h63 : (finalH {} { out := .empty, dictStart := 0, cap := max (effCap cfgCap) (max hdr.dictCap 4096) } ops).out.size
+      < 2 ^ 63) (k : Nat) (hk : k < (Lzma1.encode hdr ops.toArray marker).size)
+    (l : LSt) (h : newReaderE true cfgCap ((Lzma1.encode hdr ops.toArray marker).extract 0 k) = .ok l) (lens : List Nat) :
+    lastStat (readSeq l lens) ≠ .eof := by
+  intro he
+  obtain ⟨lN, hN, hseq⟩ := C09_lzma_reader_clean_end_only_if_stream_complete cfgCap _ l h lens he
+  have := Props.C05.C05_lazy_lzma_prefix_never_clean_known cfgCap hdr ops marker hlc hlp hpb hdc hcfg hops hsize h63 k hk
+    lN hN lens
+  rw [hseq] at this
+  exact this he
+
+open LazyDec LazyDec2 in
+/-- **the property for LZMA2**: the source fails at offset k inside a well-formed chunk sequence (end-of-stream chunk
+    included) — no schedule ends cleanly, and what was delivered is a prefix of the content -/
+theorem C09_lzma2_reader_source_failure_inside_stream_never_clean (cfgCap : Nat) (hcap : 4096 ≤ effCap cfgCap)
+    (cs : Array Lzma2.Chunk) (hok : Lzma2.ChunksOk false (Lzma2.e0 (effCap cfgCap)) .init cs.toList) (k : Nat)
+    (hk : k < (Lzma2.emit (effCap cfgCap) (cs.push { kind := .eos, usize := 0 })).size) (lens : List Nat)
+    (cut : ByteArray) (hcut : cut = (Lzma2.emit (effCap cfgCap) (cs.push { kind := .eos, usize := 0 })).extract 0 k) :
+    lastStat (LazyDec2.readSeq (newReader2E true cfgCap cut) lens) ≠ .eof := by
+  intro he
+  have hseq := C09_lzma2_reader_clean_end_only_if_stream_complete cfgCap cut lens he
+  have := (Props.C05.C05_lazy_lzma2_prefix_never_clean cfgCap hcap cs hok k hk lens cut _ hcut rfl).1
+  rw [hseq] at this
+  exact this he
+
 /-- non-vacuity: on the empty input the failing-source reader reports the source's error when opened, the plain one an
     unexpected end -/
 example : (LazyDec.newReaderE true 0 ByteArray.empty).toOption.isNone = true ∧
